@@ -23,8 +23,8 @@ NAME = "io"
 PROPS = ("C20",)
 
 ENCODINGS = ["utf-8", "latin-1", "gbk", "utf-16"]
-RETURNS = ["none", "empty_list", "empty_tuple", "same", "new", "list2", "tuple3", "gen", "int", "obj", "str", "list_bad", "list1", "repeat2"]
-INVALID = {"int", "obj", "str", "list_bad"}
+RETURNS = ["none", "empty_list", "empty_tuple", "same", "new", "list2", "tuple3", "gen", "int", "obj", "str", "list_bad", "list1", "repeat2", "list_none"]
+INVALID = {"int", "obj", "str", "list_bad", "list_none"}
 BLOCK_CLASSES = ["Entry", "String", "Preamble", "ExplicitComment", "ImplicitComment", "ParsingFailedBlock", "DuplicateBlockKeyBlock", "DuplicateFieldKeyBlock"]
 
 
@@ -146,6 +146,8 @@ class Protocol(mwbase.BlockMiddleware):
             r, exp = "text", None
         elif kind == "list_bad":
             r, exp = [block, "not a block"], None
+        elif kind == "list_none":
+            r, exp = [block, None, self._new()], None       # None is "no block" only as the whole result, not as an item
         else:
             raise ValueError(kind)
         self.log.append((block, kind, exp))
@@ -297,6 +299,24 @@ def generate(rng, tier, prop):
 # ------------------------------------------------------------------ execution
 
 
+class ArgWatch:
+    """Remembers what the caller's stack arguments held, to check afterwards that the callee left them alone."""
+
+    def __init__(self):
+        self.seen = []
+
+    def __call__(self, obj):
+        if isinstance(obj, list):
+            self.seen.append((obj, list(obj)))
+        return obj
+
+    def disturbed(self):
+        for obj, before in self.seen:
+            if len(obj) != len(before) or any(a is not b for a, b in zip(obj, before)):
+                return f"a list the caller passed as a stack argument went from {len(before)} to {len(obj)} items"
+        return None
+
+
 def fold(stack, lib):
     for m in stack:
         lib = m.transform(library=lib)
@@ -435,11 +455,22 @@ def execute(run, props):
             if kind in ("parse_string", "parse_file"):
                 a = op["args"]
                 both = a["full"] is not None and a["add"] is not None
-                mk = lambda: {"parse_stack": build_stack(a["full"], a["kind"]), "append_middleware": build_stack(a["add"], a["kind"])}  # noqa
+                watch = ArgWatch()
+                mk = lambda: {"parse_stack": watch(build_stack(a["full"], a["kind"])), "append_middleware": watch(build_stack(a["add"], a["kind"]))}  # noqa
                 if kind == "parse_string":
                     text = cfg["docs"][op["doc"] % len(cfg["docs"])]["text"]
-                    got = _outcome(lambda: EP.parse_string(text, **mk()))
+                    kw_ = mk()
+                    got = _outcome(lambda: EP.parse_string(text, **kw_))
                     res.sim_steps += 1
+                    stateless = not any(d["k"] == "boom" for part in (a["full"], a["add"]) if part for d in part)
+                    if a["kind"] == "list" and got[0] == "ok" and not both and stateless and rng_free_coin(step, text):
+                        # the caller keeps its argument lists and uses them again: the second call is the same call
+                        got = _outcome(lambda: EP.parse_string(text, **kw_))
+                        res.probes["same_argument_lists_used_twice"] += 1
+                    bad = watch.disturbed()
+                    if bad:
+                        V("composition", "parse_string/callers-argument-list-changed", step, bad)
+                        return res
 
                     def explicit():
                         lib = SP.Splitter(text).split()
@@ -604,9 +635,14 @@ def execute(run, props):
                     return W.write(fold(st, twin), bibtex_format=f)
 
                 if kind == "write_string":
-                    got = _outcome(lambda: EP.write_string(lib, unparse_stack=build_stack(a["full"], a["kind"]),
-                                                           prepend_middleware=build_stack(a["add"], a["kind"]), bibtex_format=f))
+                    watch = ArgWatch()
+                    us_, pm_ = watch(build_stack(a["full"], a["kind"])), watch(build_stack(a["add"], a["kind"]))
+                    got = _outcome(lambda: EP.write_string(lib, unparse_stack=us_, prepend_middleware=pm_, bibtex_format=f))
                     res.sim_steps += 1
+                    bad = watch.disturbed()
+                    if bad:
+                        V("composition", "write_string/callers-argument-list-changed", step, bad)
+                        return res
                     want = _outcome(explicit_text) if not both else None
                     label = "write_string(" + pattern(a) + ")"
                     c = compare(step, "write_string", got, want, both)
@@ -863,6 +899,11 @@ def execute(run, props):
                 continue
             raise ValueError(kind)
     return res
+
+
+def rng_free_coin(step, text):
+    """A deterministic 'coin' that needs no PRNG at run time."""
+    return (step + len(text)) % 3 == 0
 
 
 def _traces(lib):
